@@ -421,6 +421,10 @@ func c13ErrOutcome(err error) c13Outcome {
 		msg = msg[:300]
 	}
 	crc := strings.Contains(msg, "crc32 checksum mismatch")
+	var rv *c13RetryErr
+	if errors.As(err, &rv) {
+		return c13Outcome{"retry-" + rv.stage, msg, false}
+	}
 	if errors.Is(err, parquet.ErrCorrupted) {
 		return c13Outcome{"detected", msg, crc}
 	}
@@ -547,6 +551,166 @@ func c13Same(a, b any) bool {
 	return reflect.DeepEqual(a, b)
 }
 
+// ---------------------------------------------------------------- retries on the same reader
+
+// c13RetryErr: the corruption was reported, but a later read on the same reader did not keep to
+// "reports it again or returns the pristine rows" (stage: noseek | into | past | back)
+type c13RetryErr struct{ stage, what string }
+
+func (e *c13RetryErr) Error() string { return "retry/" + e.stage + ": " + e.what }
+
+func c13DrainRows(rows parquet.Rows) ([]parquet.Row, error) {
+	var out []parquet.Row
+	buf := make([]parquet.Row, 29)
+	for spins := 0; spins < 1<<16; spins++ {
+		n, err := rows.ReadRows(buf)
+		for i := 0; i < n; i++ {
+			out = append(out, buf[i].Clone())
+		}
+		if err == io.EOF {
+			return out, nil
+		}
+		if err != nil {
+			return out, err
+		}
+	}
+	return out, errors.New("c13: reader does not terminate")
+}
+
+// c13RetryRows: read the row group until the corruption is reported, then on the SAME reader
+// (a) read again without seeking: must fail again (the position is undefined),
+// (b) seek to row k inside the faulted page and read: must report the corruption again,
+// (c) seek to row k2 behind the faulted data page (k2 < 0: none) and read: the pristine rows from k2,
+// (d) seek back to k: reported again.
+// Returns the first error when everything conforms, a *c13RetryErr otherwise.
+func c13RetryRows(rows parquet.Rows, k, k2 int64, pristineFrom func(int64) (any, error)) (any, error) {
+	defer rows.Close()
+	got, err0 := c13DrainRows(rows)
+	if err0 == nil {
+		return got, nil // never reported: judged like a sequential read
+	}
+	if !errors.Is(err0, parquet.ErrCorrupted) {
+		return nil, err0
+	}
+	if more, err := c13DrainRows(rows); err == nil {
+		return nil, &c13RetryErr{"noseek", fmt.Sprintf("a read without a seek after the failed one returned %d rows and no error", len(more))}
+	}
+	into := func(stage string) error {
+		if err := rows.SeekToRow(k); err != nil {
+			return &c13RetryErr{stage, fmt.Sprintf("SeekToRow(%d) refused: %v", k, err)}
+		}
+		more, err := c13DrainRows(rows)
+		if err == nil {
+			return &c13RetryErr{stage, fmt.Sprintf("after SeekToRow(%d) into the corrupted page the read returned %d rows and no error", k, len(more))}
+		}
+		if !errors.Is(err, parquet.ErrCorrupted) {
+			return &c13RetryErr{stage, fmt.Sprintf("after SeekToRow(%d) the read failed with an error that is not ErrCorrupted: %v", k, err)}
+		}
+		return nil
+	}
+	if err := into("into"); err != nil {
+		return nil, err
+	}
+	if k2 >= 0 {
+		want, err := pristineFrom(k2)
+		if err != nil {
+			return nil, err
+		}
+		if err := rows.SeekToRow(k2); err != nil {
+			return nil, &c13RetryErr{"past", fmt.Sprintf("SeekToRow(%d) refused: %v", k2, err)}
+		}
+		more, err := c13DrainRows(rows)
+		if err != nil {
+			return nil, &c13RetryErr{"past", fmt.Sprintf("after SeekToRow(%d) behind the corrupted page the read failed: %v", k2, err)}
+		}
+		if !c13Same(more, want) {
+			return nil, &c13RetryErr{"past", fmt.Sprintf("after SeekToRow(%d) behind the corrupted page the read returned other rows than the pristine ones", k2)}
+		}
+		if err := into("back"); err != nil {
+			return nil, err
+		}
+	}
+	return nil, err0
+}
+
+func c13DrainPages(pages parquet.Pages) ([]string, error) {
+	var out []string
+	for spins := 0; spins < 1<<16; spins++ {
+		p, err := pages.ReadPage()
+		if err == io.EOF {
+			return out, nil
+		}
+		if err != nil {
+			return out, err
+		}
+		vals := make([]parquet.Value, p.NumValues()+1)
+		vr := p.Values()
+		total := 0
+		for total < len(vals) {
+			n, err := vr.ReadValues(vals[total:])
+			total += n
+			if err != nil || n == 0 {
+				break
+			}
+		}
+		for _, v := range vals[:total] {
+			out = append(out, fmt.Sprintf("%+v", v))
+		}
+		out = append(out, fmt.Sprintf("|rows=%d", p.NumRows()))
+		parquet.Release(p)
+	}
+	return out, errors.New("c13: reader does not terminate")
+}
+
+// c13RetryPages: the same at the level of one column chunk (FilePages); a read without a seek after
+// the failure is not judged there (the position is undefined and the next page may be delivered).
+func c13RetryPages(pages parquet.Pages, k, k2 int64, pristineFrom func(int64) (any, error)) (any, error) {
+	defer pages.Close()
+	got, err0 := c13DrainPages(pages)
+	if err0 == nil {
+		return got, nil
+	}
+	if !errors.Is(err0, parquet.ErrCorrupted) {
+		return nil, err0
+	}
+	into := func(stage string) error {
+		if err := pages.SeekToRow(k); err != nil {
+			return &c13RetryErr{stage, fmt.Sprintf("SeekToRow(%d) refused: %v", k, err)}
+		}
+		more, err := c13DrainPages(pages)
+		if err == nil {
+			return &c13RetryErr{stage, fmt.Sprintf("after SeekToRow(%d) into the corrupted page ReadPage returned %d values and no error", k, len(more))}
+		}
+		if !errors.Is(err, parquet.ErrCorrupted) {
+			return &c13RetryErr{stage, fmt.Sprintf("after SeekToRow(%d) ReadPage failed with an error that is not ErrCorrupted: %v", k, err)}
+		}
+		return nil
+	}
+	if err := into("into"); err != nil {
+		return nil, err
+	}
+	if k2 >= 0 {
+		want, err := pristineFrom(k2)
+		if err != nil {
+			return nil, err
+		}
+		if err := pages.SeekToRow(k2); err != nil {
+			return nil, &c13RetryErr{"past", fmt.Sprintf("SeekToRow(%d) refused: %v", k2, err)}
+		}
+		more, err := c13DrainPages(pages)
+		if err != nil {
+			return nil, &c13RetryErr{"past", fmt.Sprintf("after SeekToRow(%d) behind the corrupted page ReadPage failed: %v", k2, err)}
+		}
+		if !reflect.DeepEqual(any(more), want) {
+			return nil, &c13RetryErr{"past", fmt.Sprintf("after SeekToRow(%d) behind the corrupted page the pages hold other values than the pristine ones", k2)}
+		}
+		if err := into("back"); err != nil {
+			return nil, err
+		}
+	}
+	return nil, err0
+}
+
 // an access: how to read, and which rows it covers
 type c13Access struct {
 	Path  string // name of the access path (part of the failure key)
@@ -556,12 +720,13 @@ type c13Access struct {
 }
 
 type c13Env struct {
-	cfg   c13Config
-	typed c13Typed
-	data  []byte
-	pages []c13Page
-	rgRow []int64 // first global row of each row group
-	base  sync.Map
+	cfg    c13Config
+	typed  c13Typed
+	data   []byte
+	pages  []c13Page
+	rgRow  []int64 // first global row of each row group
+	rgRows []int64 // rows of each row group
+	base   sync.Map
 }
 
 func c13Open(data []byte, opts ...parquet.FileOption) (*parquet.File, error) {
@@ -700,14 +865,74 @@ func (e *c13Env) accesses(p c13Page, r *rand.Rand) []c13Access {
 			}
 			return c13ReadRows(f.RowGroups()[g].Rows(), k)
 		})
+		// retries on the same reader after the corruption was reported (corrupted_stays_reported);
+		// one seek target per fault (for a data page its last row: the retry seek skips inside the page)
+		if len(seen) > 1 {
+			continue
+		}
+		kr := k
+		if p.Kind != "dict" {
+			kr = p.FirstRow + p.NumRows - 1
+		}
+		k2 := int64(-1)
+		if p.Kind != "dict" && p.FirstRow+p.NumRows < e.rgRows[g] {
+			k2 = p.FirstRow + p.NumRows
+		}
+		add("rows-retry", kr, "", func(d []byte) (any, error) {
+			f, err := c13Open(d)
+			if err != nil {
+				return nil, err
+			}
+			return c13RetryRows(f.RowGroups()[g].Rows(), kr, k2, func(from int64) (any, error) {
+				return e.pristine(fmt.Sprintf("rows-from/%d/%d", g, from), func() (any, error) {
+					pf, err := c13Open(e.data)
+					if err != nil {
+						return nil, err
+					}
+					return c13ReadRows(pf.RowGroups()[g].Rows(), from)
+				})
+			})
+		})
+		add("pages-retry", kr, "", func(d []byte) (any, error) {
+			f, err := c13Open(d)
+			if err != nil {
+				return nil, err
+			}
+			return c13RetryPages(f.RowGroups()[g].ColumnChunks()[col].Pages(), kr, k2, func(from int64) (any, error) {
+				return e.pristine(fmt.Sprintf("pages-from/%d/%d/%d", g, col, from), func() (any, error) {
+					pf, err := c13Open(e.data)
+					if err != nil {
+						return nil, err
+					}
+					v, err := c13ReadPages(pf.RowGroups()[g].ColumnChunks()[col].Pages(), from)
+					if err != nil {
+						return nil, err
+					}
+					return any(v.([]string)), nil
+				})
+			})
+		})
 	}
 	return out
+}
+
+// pristine memoises a read of the unaltered file
+func (e *c13Env) pristine(key string, f func() (any, error)) (any, error) {
+	if v, ok := e.base.Load("p/" + key); ok {
+		return v, nil
+	}
+	v, err := f()
+	if err != nil {
+		return nil, err
+	}
+	e.base.Store("p/"+key, v)
+	return v, nil
 }
 
 // baseline: the same access on the pristine file (memoised)
 func (e *c13Env) baseline(a c13Access, p c13Page) (any, error) {
 	key := fmt.Sprintf("%s/%d/%d/%d", a.Path, p.RG, p.Col, a.K)
-	if a.Path != "pages-seq" && a.Path != "pages-seek" && a.Path != "read-dictionary" {
+	if !strings.HasPrefix(a.Path, "pages-") && a.Path != "read-dictionary" {
 		key = fmt.Sprintf("%s/%d/-/%d", a.Path, p.RG, a.K)
 	}
 	if v, ok := e.base.Load(key); ok {
@@ -737,6 +962,10 @@ func c13Key(p c13Page, a c13Access, class string) string {
 	sfx := ""
 	if class == "panic" || class == "crash" {
 		sfx = "/panic"
+	}
+	if strings.HasPrefix(class, "retry-") && p.CRC != 0 {
+		// after the corruption was reported once, a later read on the same reader misbehaved
+		return class + "-" + kind + "-" + a.Path
 	}
 	switch {
 	case p.CRC == 0:
@@ -973,6 +1202,7 @@ func c13RunJob(job c13Job, col *c13Collector) {
 	var acc int64
 	for _, rg := range f.Metadata().RowGroups {
 		env.rgRow = append(env.rgRow, acc)
+		env.rgRows = append(env.rgRows, rg.NumRows)
 		acc += rg.NumRows
 	}
 	col.out.Pages = len(env.pages)
